@@ -16,7 +16,9 @@ PLAN = dict(
     assumptions=SC_TSO + ["comparators are strict weak orderings; grainsize > 0; end-begin representable",
                           "parallel_deterministic_reduce with static_partitioner is only compared between runs that observed the same this_task_arena::max_concurrency() "
                           "(its initial divisor is max_concurrency(), so the tree legitimately depends on the arena size)",
-                          "always inside an explicit task_arena (the implicit arena's size depends on the machine)"],
+                          "always inside an explicit task_arena (the implicit arena's size depends on the machine)",
+                          "assertion-enabled leg: under max_allowed_parallelism 1 the nested wait of the calling thread is not routed through the helper arena (that shape trips the "
+                          "known finding C16 update-allotment assertion, which is reported by the C16 check; counted as n_excluded)"],
     floor=dict(quick=1400, thorough=25000),
     tiers=dict(
         quick=[det("rel", H, "cs-rel", 16, 320, 4, tso=True, time_cap=22),
